@@ -263,6 +263,30 @@ def run(tier, seed):
                 s.pop()
                 if verdict != "discharged":
                     break
+        # an ARBITRARY role string outside the three canonical values grants nothing - alone, and next to a visitor's role (role values are stored
+        # verbatim by user add / update; UserRole::new from source on a symbolic string)
+        if verdict == "discharged":
+            R = z3.String("unknown_role_string")
+            noncanon = z3.And(*[R != z3.StringVal(v_) for v_ in ROLES.values()])
+            for label, rl, base in (("alone", [R], z3.BoolVal(False)), ("next to the visitor role", [ROLES["visitor"], R], A["visitor"])):
+                F = allowed_formula(prog, rl, path, method, stats)
+                s.push()
+                s.add(noncanon, F, z3.Not(base), z3.Length(R) < 6)
+                r = solve(s, timer)
+                nchecks += 1
+                if r == z3.sat:
+                    m_ = s.model()
+                    w, wm, rv = m_.eval(path, model_completion=True).as_string(), m_.eval(method, model_completion=True).as_string(), m_.eval(R, model_completion=True).as_string()
+                    roles_c = [x if isinstance(x, str) else rv for x in rl]
+                    fail("a user whose role list is %r (role string %r is none of the three roles) may %s %s" % (roles_c, rv, wm, w), ["unknown-role-allowed"],
+                         [{"kind": "role_match", "roles": roles_c, "path": w, "method": wm, "expect": True}], {"path": w, "method": wm, "roles": roles_c})
+                    verdict = "violation"
+                elif r != z3.unsat:
+                    fail("solver %s on the arbitrary-role query" % r, ["solver"], [], {})
+                    verdict = "inconclusive"
+                s.pop()
+                if verdict != "discharged":
+                    break
         # several roles = union of the roles
         if verdict == "discharged":
             names = list(ROLES)
